@@ -125,6 +125,19 @@ def render (fr : List (List Nat)) : Lines := renderTok header (fr.map idToks)
 section Writers
 variable {α : Type} [LE α] [DecidableLE α]
 
+/-- 0-based lists of one snapshot (what the writers put after the cn column, minus 1) -/
+def Impl.nnearestLists (apart : (Nat → α) → Nat → Nat → List Nat) (asort : (Nat → α) → List Nat → List Nat)
+    (key : Nat → Nat → α) (n N : Nat) : List (List Nat) :=
+  (List.range n).map fun i => (Impl.nnearest0 apart asort (key i) n N).getD []
+
+def Impl.cutoffLists (asort : (Nat → α) → List Nat → List Nat) (key : Nat → Nat → α) (rc2 : α) (n : Nat) :
+    List (List Nat) :=
+  (List.range n).map fun i => (Impl.cutoff0 asort (key i) (withinGlobal (key i) rc2) n).2
+
+def Impl.cutoffTypeLists (asort : (Nat → α) → List Nat → List Nat) (key : Nat → Nat → α)
+    (rc2 : Nat → Nat → α) (ty : Nat → Nat) (n : Nat) : List (List Nat) :=
+  (List.range n).map fun i => (Impl.cutoff0 asort (key i) (withinType (key i) rc2 ty i) n).2
+
 /-- `Nnearests` for one snapshot: lines of the file, `none` when numpy raises.  `key i j` = squared distance -/
 def Impl.nnearestFrame (apart : (Nat → α) → Nat → Nat → List Nat) (asort : (Nat → α) → List Nat → List Nat)
     (key : Nat → Nat → α) (n N : Nat) : Option Lines :=
